@@ -38,14 +38,15 @@ def d1_error_discipline(ctx, rm: REModel):
     if i_e is not None and hs[i_e].name:
         body = hs[i_e].body
         ok = any(isinstance(s, ast.Assign) and A.chain(s.targets[0]) == "new_response" and A.chain(s.value) == hs[i_e].name for s in body) \
-            and isinstance(body[-1], ast.Continue) and not any(isinstance(s, ast.Raise) for s in body)
+            and (isinstance(body[-1], ast.Continue) or q.in_tail_position(rm.loop, body[-1])) and not any(isinstance(s, ast.Raise) for s in body)
     ctx.ob("C12.D1-command-errors-stored", cname(run, None, "any other exception of a command becomes the response of that message"), ok,
            "" if ok else "an exception raised by a device operation is not stored as the response of the message that caused it", nontrivial=True, where=where(run, t))
     if i_c is not None and i_e is not None:
         ctx.ob("C12.D1-command-errors-stored", cname(run, None, "handler order"), i_c < i_e or names[i_e] == "Exception",
                "" if (i_c < i_e or names[i_e] == "Exception") else "the generic handler shadows the CancelledError handler", where=where(run, t))
     # unknown command -> InvalidCommand stored
-    ifs = [s for s in A.walk_stmts(rm.inner_try.body) if isinstance(s, ast.If) and "self._command_registry.get(msg.command" in A.norm(s.test)]
+    ifs = [s for s in A.walk_stmts(rm.inner_try.body) if isinstance(s, ast.If) and ("self._command_registry.get(msg.command" in A.norm(s.test)
+                                                                                    or A.norm(s.test) == "msg.command not in self._command_registry")]
     ok = bool(ifs) and any(isinstance(x, ast.Assign) and A.chain(x.targets[0]) == "new_response" and "InvalidCommand(msg.command)" in A.norm(x.value) for x in ifs[0].body) \
         and isinstance(ifs[0].body[-1], ast.Continue)
     ctx.ob("C12.D1-command-errors-stored", cname(run, None, "unknown command -> InvalidCommand as response"), ok, "" if ok else "an unknown command no longer surfaces in the plan as InvalidCommand", where=where(run, rm.inner_try))
